@@ -60,6 +60,9 @@ def state_sig(v, seen=None, depth=0):
 class EndPath(Exception):
     """a stub ends the path normally (what lies beyond is outside the harness's claim)"""
     def __init__(self, reason): Exception.__init__(self, reason); self.reason = reason
+class SignFloat(float):
+    """a float of which only the sign class (-1.0, 0.0, 1.0) is meaningful: a symbolic integer converted with `as f64`"""
+
 class ProcessExit(Exception):
     def __init__(self, code): Exception.__init__(self, 'exit'); self.code = code
 
@@ -918,6 +921,10 @@ class Interp:
         raise Unsupported('symbolic binop ' + op)
 
     def float_binop(self, op, a, b):
+        if isinstance(a, SignFloat) or isinstance(b, SignFloat):
+            # an abstracted float (only its sign class is known) may only be divided by a zero: everything else would be a guess
+            if not (op == 'Div' and isinstance(a, SignFloat) and not isinstance(b, SignFloat) and float(b) == 0.0):
+                raise Unsupported('arithmetic on a symbolic integer converted to a float (only `x as f64 / 0.0` is modelled)')
         a = float(a); b = float(b)
         if op == 'Add': return a + b
         if op == 'Sub': return a - b
@@ -960,13 +967,23 @@ class Interp:
             return z3.SignExt(dst[0] - sb, v) if ssg else z3.ZeroExt(dst[0] - sb, v)
         if kind == 'IntToFloat':
             if is_sym(v):
-                # only the sign survives (used by `x as f64 / 0.0`): a representative of each sign class
+                # few feasible values: fork over them (exact).  Otherwise only the sign class survives, as a SignFloat that
+                # can be used for `x as f64 / 0.0` and nothing else (any other use is Unsupported = inconclusive, never a guess)
                 src = self.operand_prim(fr.fn, op)
-                if src and src[1] and self.ctx.branch(v < 0): return -1.0
-                if self.ctx.branch(v == 0): return 0.0
-                return 1.0
+                vals = self.ctx.values_upto(v, 80)
+                if vals is not None:
+                    bits = v.size()
+                    for x in vals[:-1]:
+                        if self.ctx.branch(v == z3.BitVecVal(x, bits)):
+                            return float(x - (1 << bits) if (src and src[1] and x >= (1 << (bits - 1))) else x)
+                    x = vals[-1]
+                    return float(x - (1 << bits) if (src and src[1] and x >= (1 << (bits - 1))) else x)
+                if src and src[1] and self.ctx.branch(v < 0): return SignFloat(-1.0)
+                if self.ctx.branch(v == 0): return SignFloat(0.0)
+                return SignFloat(1.0)
             return float(v)
         if kind == 'FloatToInt':
+            if isinstance(v, SignFloat): raise Unsupported('symbolic integer converted to a float and back')
             dst = prim(ty)
             if v != v: return 0
             lo = -(1 << (dst[0] - 1)) if dst[1] else 0
